@@ -2702,6 +2702,15 @@ def replay_bls_vectors(args):
         exp = G2_to_signature(multiply(hash_to_G2(pk, pop_tag, hashlib.sha256), sk))
         if bls.G2ProofOfPossession.PopProve(sk) != exp:
             bad.append(("PopProve", sk))
+        if sk == 1:
+            # the same message bytes signed back to back under different tags (history: a memo keyed on the message alone)
+            if bls.G2ProofOfPossession.Sign(sk, pk) != G2_to_signature(multiply(hash_to_G2(pk, tags["G2ProofOfPossession"], hashlib.sha256), sk)):
+                bad.append(("Sign after PopProve of the same bytes", sk))
+            if bls.G2ProofOfPossession.PopProve(sk) != exp:
+                bad.append(("PopProve after Sign of the same bytes", sk))
+            for name in ("G2Basic", "G2ProofOfPossession", "G2Basic"):
+                if getattr(bls, name).Sign(sk, b"same bytes") != G2_to_signature(multiply(hash_to_G2(b"same bytes", tags[name], hashlib.sha256), sk)):
+                    bad.append((name, "Sign of the same bytes under alternating tags"))
         if len(bad) > 3:
             break
     return (len(bad) > 0), "bls_vectors: %d mismatches %s" % (len(bad), str(bad[:3])[:200])
